@@ -19,159 +19,234 @@ def _loops_over(f: Func, name: str) -> List[ast.For]:
 
 
 def _key_func(ctx: Ctx, f: Func) -> Optional[Func]:
+    """The nested one-argument function that returns p._data_id when unique_nodes and p._node_id otherwise."""
+    from .util import exit_cases, find_cases
+
     for g in f.nested:
         if len(g.positional_params()) != 1:
             continue
         p = g.positional_params()[0]
-        for n in iter_own(g.node):
-            if isinstance(n, ast.Return) and n.value is not None and match(f"{p}._data_id if unique_nodes else {p}._node_id", n.value) is not None:
-                return g
+        cs = [c for c in exit_cases(ctx, g, ("return",)) if c.value is not None]
+        if len(cs) == 1 and match(f"{p}._data_id if unique_nodes else {p}._node_id", cs[0].value) is not None:
+            return g
+        if len(cs) == 2 and find_cases(cs, "return", f"{p}._data_id", [("unique_nodes", True)]) and find_cases(cs, "return", f"{p}._node_id", [("unique_nodes", False)]):
+            return g
     return None
 
 
 @rule("SIB-EXPORT", ["C17"], floor=20, section="3.7")
 def sib_export(ctx: Ctx) -> List[Ob]:
     """DOT and Mermaid exporters agree: node loop and edge loop range over the same iteration, keys come from one key function (data_id iff unique_nodes), the edge loop skips exactly the edges leaving an excluded root and emits one edge per node; RDF adds one has_child triple per child with a parent"""
+    from .util import cond_texts, exit_cases, find_cases, find_under, not_after, path_conds, reaching_values, resolve_expr
+
     obs: List[Ob] = []
     m = ctx.model
 
     def O(f, label, ok, why="", node=None):
-        obs.append(ctx.ob("SIB-EXPORT", ["C17"], f, label, node, bool(ok), "" if ok else why))
+        obs.append(ctx.tri("SIB-EXPORT", ["C17"], f, label, node, ok, why))
+
+    def inner(f, node, scope):
+        ids = {id(x) for x in ast.walk(scope)}
+        return [(a_, p_) for a_, p_ in path_conds(ctx, f, node) if id(getattr(a_, "_orig", a_)) in ids]
 
     specs = [("node_to_dot", "add_self"), ("_node_to_mermaid_flowchart_iter", "add_root")]
+    shapes = {}
     for q, flag in specs:
         f = m.func(q)
         kf = _key_func(ctx, f)
-        O(f, f"{q}: key(n) = n._data_id if unique_nodes else n._node_id", kf is not None,
+        O(f, f"{q}: key(n) = n._data_id if unique_nodes else n._node_id", (kf is not None) if f.nested else None,
           "one graph node per distinct data_id, or per tree node when unique_nodes is off")
         kname = kf.name if kf else "_no_key_function_"
         loops = _loops_over(f, "node")
         O(f, f"{q}: node loop and edge loop both iterate `node` (same pre-order walk)", len(loops) == 2, f"{len(loops)} loops over the start node")
         if len(loops) != 2:
             continue
-        nl, el = loops
+
+        def keytext(at, e) -> str:
+            """key expression with the key function expanded: `K(<node expr>)`"""
+            r = resolve_expr(ctx, f, at, e, keep=[kname])
+            t = norm(r)
+            for side in ("_data_id", "_node_id"):
+                pass
+            mk = match(f"{kname}($$x)", r)
+            if mk is not None:
+                return f"K({norm(mk['$$x'])})"
+            return t
+
+        def is_edge_loop(lp):
+            v = norm(lp.target)
+            return any(isinstance(x, ast.Attribute) and x.attr in ("_parent", "parent") and norm(x.value) == v for x in ast.walk(lp))
+
+        el = [lp for lp in loops if is_edge_loop(lp)]
+        nl = [lp for lp in loops if not is_edge_loop(lp)]
+        if len(el) != 1 or len(nl) != 1:
+            O(f, f"{q}: node loop defines each key once (skip when seen, record when new)", None, "node / edge loop not told apart")
+            continue
+        nl, el = nl[0], el[0]
         nv, ev = norm(nl.target), norm(el.target)
-        # node loop: de-dup by key with continue, one yield
-        ys = [x for st in nl.body for x in ast.walk(st) if isinstance(x, ast.Yield)]
-        conts = [x for st in nl.body for x in ast.walk(st) if isinstance(x, ast.Continue)]
-        ok = len(ys) == 1 and len(conts) == 1
-        if ok:
-            cp = m.parent_of(conts[0])
-            e = match("$k in $seen", cp.test) if isinstance(cp, ast.If) else None
-            ok = e is not None
-            if ok:
-                rec = find("$seen.add($k)", nl, e) + find("$seen[$k] = $$v", nl, e)
-                ok = len(rec) == 1 and rec[0][0].lineno > conts[0].lineno
-                # the key is the key function's choice for this node
-                kd = find(f"$k = {kname}({nv})", nl, e) + find(f"$k = {nv}._data_id", nl, e)
-                ok = ok and len(kd) >= 1
+        shapes[q] = (f, kname, nl, el, nv, ev)
+        # ---- node loop: a key that was seen before is not defined again; a new key is recorded
+        ys = [x for x in ast.walk(nl) if isinstance(x, ast.Yield)]
+        ok: Optional[bool] = None
+        if len(ys) == 1:
+            tests = []
+            for n_ in ast.walk(nl):
+                if isinstance(n_, ast.Compare) and len(n_.ops) == 1 and isinstance(n_.ops[0], (ast.In, ast.NotIn)):
+                    tests.append(n_)
+            seen_ok = False
+            for t_ in tests:
+                kx, S = t_.left, norm(t_.comparators[0])
+                here = t_
+                while here is not None and not isinstance(here, ast.stmt):
+                    here = m.parent_of(here)
+                kt = keytext(here, kx)
+                if kt not in (f"K({nv})", f"{nv}._data_id"):
+                    continue
+                # (a) the definition is not reached in a round where the key is in S
+                pcs_y = inner(f, ys[0], nl)
+                guarded = any((not pol) and isinstance(a_, ast.Compare) and isinstance(a_.ops[0], ast.In) and norm(a_.comparators[0]) == S for a_, pol in pcs_y)
+                skipped = any(isinstance(c_, ast.Continue) and any(pol and isinstance(a_, ast.Compare) and isinstance(a_.ops[0], ast.In) and norm(a_.comparators[0]) == S
+                                                                     for a_, pol in inner(f, c_, nl)) for c_ in ast.walk(nl))
+                # (b) the key is recorded in S when it is new
+                recs = find(f"{S}.add($$k)", nl) + find(f"{S}[$$k] = $$v", nl)
+                rec_ok = len(recs) == 1 and keytext(recs[0][0], recs[0][1]["$$k"]) == kt and any(
+                    (not pol) and isinstance(a_, ast.Compare) and isinstance(a_.ops[0], ast.In) and norm(a_.comparators[0]) == S for a_, pol in inner(f, recs[0][0], nl))
+                if (guarded or skipped) and rec_ok:
+                    seen_ok = True
+            ok = seen_ok if tests else False
         O(f, f"{q}: node loop defines each key once (skip when seen, record when new)", ok,
           "clones must share one graph node when unique_nodes is on, and every other node must be defined", nl)
-        # edge loop
-        first = el.body[0]
-        ok = match(f"if not {flag} and {ev}._parent is node:\n    continue", first) is not None
-        O(f, f"{q}: the edge loop skips exactly `not {flag} and n._parent is node` (identity)", ok,
-          "excluding the root omits the root node and the edges leaving it and nothing else (edges leaving an inner clone of the start node stay)", el)
-        conts = [x for st in el.body for x in ast.walk(st) if isinstance(x, (ast.Continue, ast.Break))]
-        ys = [x for st in el.body for x in ast.walk(st) if isinstance(x, ast.Yield)]
-        O(f, f"{q}: exactly one edge statement per remaining node", len(conts) == 1 and len(ys) == 1, f"{len(ys)} yields / {len(conts)} skips in the edge loop", el)
-        ok = has(f"{kname}({ev}._parent)", el) and has(f"{kname}({ev})", el)
+        # ---- edge loop
+        eys = [x for x in ast.walk(el) if isinstance(x, ast.Yield)]
+        ok = None
+        if len(eys) == 1:
+            ts = sorted(cond_texts(inner(f, eys[0], el)))
+            ok = ts in ([f"{flag} or {ev}._parent is not node"], [f"{ev}._parent is not node or {flag}"], [f"not (not {flag} and {ev}._parent is node)"])
+            why_e = f"edges are emitted under {ts}"
+        else:
+            why_e = f"{len(eys)} yields in the edge loop"
+            ok = False if eys else None
+        O(f, f"{q}: the edge loop skips exactly `not {flag} and n._parent is node` (identity) and emits one edge statement per remaining node", ok,
+          why_e + ": excluding the root omits the root node and the edges leaving it and nothing else (edges leaving an inner clone of the start node stay)", el)
+        ok = None
+        if len(eys) == 1 and eys[0].value is not None:
+            r = resolve_expr(ctx, f, eys[0], eys[0].value, keep=[kname])
+            calls = [norm(c.args[0]) for c in ast.walk(r) if isinstance(c, ast.Call) and norm(c.func) == kname and c.args]
+            ok = calls[:2] == [f"{ev}._parent", ev] if len(calls) >= 2 else (False if kf is not None else None)
         O(f, f"{q}: an edge runs from key(n._parent) to key(n)", ok, "the edge must connect the parent's key to the child's key", el)
-        roots = [n for n in f.body if isinstance(n, ast.If) and norm(n.test) == flag and any(isinstance(x, ast.Yield) for st in n.body for x in ast.walk(st))]
-        O(f, f"{q}: the root node is defined iff {flag}", len(roots) == 1 and roots[0].lineno < nl.lineno, "root definition must follow the flag")
+        rys = [c for c in exit_cases(ctx, f, ("yield",)) if cond_texts(c.conds) == {flag} and not_after(ctx, f, c.stmt, nl) and c.value is not None
+               and any(isinstance(x, ast.Name) and x.id == "node" for x in ast.walk(resolve_expr(ctx, f, c.stmt, c.value, keep=[kname])))]
+        O(f, f"{q}: the root node is defined iff {flag}", len(rys) == 1, "root definition must follow the flag")
     # dot specifics
-    f = m.func("node_to_dot")
-    lps = _loops_over(f, "node")
-    if lps:
-        nl = lps[0]
-        nv = norm(nl.target)
-        ok = match(f"if unique_nodes:\n    $k = {nv}._data_id\n    ...\nelse:\n    $k = {nv}._node_id", nl.body[0]) is not None or \
-            (isinstance(nl.body[0], ast.If) and norm(nl.body[0].test) == "unique_nodes" and has(f"$k = {nv}._data_id", nl.body[0].body) and has(f"$k = {nv}._node_id", nl.body[0].orelse))
-        kf0 = _key_func(ctx, f)
-        ok = ok or (kf0 is not None and has(f"$k = {kf0.name}({nv})", nl))
+    if "node_to_dot" in shapes:
+        f, kn, nl, el, nv, ev = shapes["node_to_dot"]
+        ys = [x for x in ast.walk(nl) if isinstance(x, ast.Yield)]
+        ok = None
+        if len(ys) == 1 and isinstance(ys[0].value, ast.JoinedStr):
+            fv = [v.value for v in ys[0].value.values if isinstance(v, ast.FormattedValue)]
+            keys = []
+            for v_ in fv:
+                vals = reaching_values(ctx, f, ys[0], v_)
+                ts = {norm(x) for x in vals}
+                if ts & {f"{nv}._data_id", f"{nv}._node_id", f"{kn}({nv})"}:
+                    keys.append(ts)
+            if keys:
+                ok = keys[0] in ({f"{nv}._data_id", f"{nv}._node_id"}, {f"{kn}({nv})"})
+                if ok and keys[0] == {f"{nv}._data_id", f"{nv}._node_id"}:
+                    ok = bool(find_under(ctx, f, f"$k = {nv}._data_id", [("unique_nodes", True)], root=nl)) and bool(find_under(ctx, f, f"$k = {nv}._node_id", [("unique_nodes", False)], root=nl))
         O(f, "node_to_dot: the node loop's key agrees with the key function", ok, "node definitions and edge endpoints must use the same key", nl)
         O(f, "node_to_dot: node definitions carry the node's name as label", has(f"{{'label': {nv}.name}}", nl), "exports carry the child's name", nl)
-        if len(lps) == 2:
-            el = lps[1]
-            ev = norm(el.target)
-            kf = _key_func(ctx, f)
-            kn = kf.name if kf else "_no_key_function_"
-            O(f, "node_to_dot: edge statement `key(parent) -> key(child)`", any(f"{{{kn}({ev}._parent)}} -> {{{kn}({ev})}}" in norm(x) for x in ast.walk(el) if isinstance(x, ast.JoinedStr)),
-              "edge direction parent -> child", el)
+        eys = [x for x in ast.walk(el) if isinstance(x, ast.Yield)]
+        ok = None
+        if len(eys) == 1:
+            r = resolve_expr(ctx, f, eys[0], eys[0].value, keep=[kn])
+            ok = any(f"{{{kn}({ev}._parent)}} -> {{{kn}({ev})}}" in norm(x) for x in ast.walk(r) if isinstance(x, ast.JoinedStr))
+        O(f, "node_to_dot: edge statement `key(parent) -> key(child)`", ok, "edge direction parent -> child", el)
     # mermaid specifics
-    f = m.func("_node_to_mermaid_flowchart_iter")
-    lps = _loops_over(f, "node")
-    kf = _key_func(ctx, f)
-    kn = kf.name if kf else "_no_key_function_"
-    if len(lps) == 2:
-        nl, el = lps
-        nv, ev = norm(nl.target), norm(el.target)
-        e = one(f"$k = {kn}({nv})", nl)
-        ok = e is not None
-        if ok:
-            st = one("$tab[$k] = $idx", nl, e)
-            ok = st is not None and has("$idx += 1", nl, {"$idx": st[1]["$idx"]})
-            tab = st[1]["$tab"] if st else "?"
-        O(f, "mermaid: every new key gets the next index", ok, "node numbering broken", nl)
-        if ok:
-            ok2 = has(f"$pi = {tab}[$pk]", el) and has(f"$pk = {kn}({ev}._parent)", el) and has(f"$ci = {tab}[$ck]", el) and has(f"$ck = {kn}({ev})", el)
+    if "_node_to_mermaid_flowchart_iter" in shapes:
+        f, kn, nl, el, nv, ev = shapes["_node_to_mermaid_flowchart_iter"]
+        sts = [(n_, e_) for n_, e_ in find("$tab[$$k] = $idx", nl)]
+        ok = None
+        tab = None
+        if len(sts) == 1:
+            tab, idx = sts[0][1]["$tab"], sts[0][1]["$idx"]
+            incs = find(f"{idx} += 1", nl)
+            kx = resolve_expr(ctx, f, sts[0][0], sts[0][1]["$$k"], keep=[kn])
+            ok = norm(kx) == f"{kn}({nv})" and len(incs) == 1 and cond_texts(inner(f, incs[0][0], nl)) == cond_texts(inner(f, sts[0][0], nl)) \
+                and not_after(ctx, f, sts[0][0], incs[0][0])
+            init = [norm(e_["$$v"]) for n_, e_ in find(f"{idx} = $$v", f.node) if not any(n_ is x for x in ast.walk(nl)) and not any(n_ is x for x in ast.walk(el))]
+            ok = ok and init == ["1"]
+        O(f, "mermaid: every new key gets the next index (numbering starts at 1; the root is 0)", ok, "node numbering broken", nl)
+        if tab is not None:
             calls = [c for c in ast.walk(el) if isinstance(c, ast.Call) and norm(c.func) == "edge_mapper"]
-            ok2 = ok2 and len(calls) == 1 and len(calls[0].args) == 4 and norm(calls[0].args[1]) == f"{ev}._parent" and norm(calls[0].args[3]) == ev
+            ok2 = None
+            if len(calls) == 1 and len(calls[0].args) == 4:
+                a0, a1, a2, a3 = [norm(resolve_expr(ctx, f, calls[0], x, keep=[kn, tab])) for x in calls[0].args]
+                ok2 = (a0, a1, a2, a3) == (f"{tab}[{kn}({ev}._parent)]", f"{ev}._parent", f"{tab}[{kn}({ev})]", ev)
             O(f, "mermaid: edges are looked up through the same index table (parent index, parent, child index, child)", ok2, "edge endpoints must be the indices of the defined nodes", el)
-            O(f, "mermaid: the root is node 0", has(f"{tab}[{kn}(node)] = 0", f.node))
+            O(f, "mermaid: the root is node 0", bool(find_under(ctx, f, f"{tab}[{kn}(node)] = 0", [("add_root", True)])))
+    f = m.func("_node_to_mermaid_flowchart_iter")
     em = [g for g in f.nested if g.name == "edge_mapper" and has("getattr($t, 'kind', None)", g.node)]
-    ok = False
+    ok = None
     if em:
         g = em[0]
         to = g.positional_params()[3] if len(g.positional_params()) == 4 else "to_node"
-        e = one(f"$k = getattr({to}, 'kind', None)", g.node)
-        ok = e is not None and has("DEFAULT_EDGE_TEMPLATE_TYPED if $k else DEFAULT_EDGE_TEMPLATE", g.node, e)
+        typed = find_under(ctx, g, "$t = DEFAULT_EDGE_TEMPLATE_TYPED", [(f"getattr({to}, 'kind', None)", True)])
+        plain = find_under(ctx, g, "$t = DEFAULT_EDGE_TEMPLATE", [(f"getattr({to}, 'kind', None)", False)])
+        ok = (len(typed) == 1 and len(plain) == 1) or has(f"DEFAULT_EDGE_TEMPLATE_TYPED if getattr({to}, 'kind', None) else DEFAULT_EDGE_TEMPLATE", g.node)
     O(f, "mermaid: the default edge is labelled with the child's kind iff it has one", ok, "typed trees label edges with the child's kind")
     # TypedNode.to_dot edge labels
     f = m.func("TypedNode.to_dot")
-    ok = False
+    ok = None
     for g in f.nested:
         if len(g.positional_params()) >= 2:
             p0, p1 = g.positional_params()[:2]
-            if has(f"{p1}['label'] = {p0}.kind", g.node) and has(f"edge_mapper({p0}, {p1})", g.node):
-                calls = [c for c in ctx.env.calls_in[f] if any(k.arg == "edge_mapper" and norm(k.value) == g.name for k in c.keywords)]
-                lab = [i for i, st in enumerate(g.body) if match(f"{p1}['label'] = {p0}.kind", st) is not None]
-                usr = [i for i, st in enumerate(g.body) if has(f"edge_mapper({p0}, {p1})", st)]
-                ok = len(calls) == 1 and bool(lab) and bool(usr) and lab[0] < usr[0]
+            labs = find(f"{p1}['label'] = {p0}.kind", g.node)
+            usr = [c for c in ctx.env.calls_in[g] if [norm(a_) for a_ in c.args] == [p0, p1] and isinstance(c.func, ast.Name) and c.func.id != g.name]
+            if labs or usr:
+                passed = [c for c in ctx.env.calls_in[f] if any(k.arg == "edge_mapper" and norm(k.value) == g.name for k in c.keywords)]
+                # the user's mapper is the outer edge_mapper (possibly through a local alias), called only if given
+                usr_ok = len(usr) == 1 and any(norm(v_) == "edge_mapper" for v_ in reaching_values(ctx, g, usr[0], usr[0].func)) or (len(usr) == 1 and usr[0].func.id == "edge_mapper")
+                ok = len(passed) == 1 and len(labs) == 1 and not path_conds(ctx, g, labs[0][0]) and usr_ok and not_after(ctx, g, labs[0][0], usr[0])
     O(f, "typed DOT export labels every edge with the child's kind and still calls the user's edge mapper", ok, "typed edge labels lost")
     # RDF
     f = m.func("_add_child_node")
     gp, pp, tp = f.positional_params()[0], f.positional_params()[1], f.positional_params()[2]
-    gn = one(f"$g = Literal({tp}.data_id)", f.node)
-    O(f, "rdf: graph nodes are keyed by data_id", gn is not None)
-    g_ = gn[1]["$g"] if gn else "graph_node"
-    hc = find(f"{gp}.add(({pp}, NUTREE_NS.has_child, {g_}))", f.node)
-    ok = len(hc) == 1
-    if ok:
-        p_ = m.parent_of(m.parent_of(hc[0][0]))
-        ok = isinstance(p_, ast.If) and match(f"{pp} is not None", p_.test) is not None
+    adds = [c for c in ctx.env.calls_in[f] if norm(c.func) == f"{gp}.add" and len(c.args) == 1 and isinstance(c.args[0], ast.Tuple) and len(c.args[0].elts) == 3]
+    trip = []
+    for c in adds:
+        s_, p_, o_ = [norm(resolve_expr(ctx, f, c, x)) for x in c.args[0].elts]
+        trip.append((c, s_, p_, o_, cond_texts(path_conds(ctx, f, c))))
+    G = f"Literal({tp}.data_id)"
+    gnodes = {t[1] for t in trip if t[2] != "NUTREE_NS.has_child"}
+    O(f, "rdf: graph nodes are keyed by data_id", (gnodes == {G}) if gnodes else None, f"subjects {sorted(gnodes)}")
+    hc = [t for t in trip if t[2] == "NUTREE_NS.has_child"]
+    ok = None
+    if hc:
+        ok = len(hc) == 1 and (hc[0][1], hc[0][3]) == (pp, G) and (f"not ({pp} is None)" in hc[0][4] or f"not {pp} is None" in hc[0][4]) and not any(
+            t_ in (pp, f"not {pp}") for t_ in hc[0][4])
     O(f, "rdf: one has_child triple parent -> child, iff there is a parent graph node (tested with `is not None`)", ok, "edge triple missing or misdirected")
-    kd = find(f"{gp}.add(({g_}, NUTREE_NS.kind, Literal({tp}.kind)))", f.node)
-    ok = len(kd) == 1 and isinstance(m.parent_of(m.parent_of(kd[0][0])), ast.If) and has(f"hasattr({tp}, 'kind')", m.parent_of(m.parent_of(kd[0][0])).test)
+    kd = [t for t in trip if t[2] == "NUTREE_NS.kind"]
+    ok = None if not trip else (len(kd) == 1 and kd[0][1] == G and kd[0][3] == f"Literal({tp}.kind)" and f"hasattr({tp}, 'kind')" in kd[0][4])
     O(f, "rdf: typed nodes get a kind triple", ok, "kind must be exported for typed trees")
-    O(f, "rdf: every node gets a name triple", len(find(f"{gp}.add(({g_}, NUTREE_NS.name, Literal({tp}.name)))", f.node)) == 1)
+    nmt = [t for t in trip if t[2] == "NUTREE_NS.name"]
+    O(f, "rdf: every node gets a name triple", None if not trip else (len(nmt) == 1 and nmt[0][1] == G and nmt[0][3] == f"Literal({tp}.name)"))
     f = m.func("_add_child_nodes")
     gp, gnp, tp = f.positional_params()[:3]
     lps = [n for n in iter_own(f.node) if isinstance(n, ast.For)]
-    ok = len(lps) == 1 and (match(f"enumerate({tp}._children or ())", lps[0].iter) is not None or match(f"enumerate({tp}.children)", lps[0].iter) is not None) \
-        and isinstance(lps[0].target, ast.Tuple)
-    if ok:
+    ok = None
+    if len(lps) == 1 and isinstance(lps[0].target, ast.Tuple) and len(lps[0].target.elts) == 2:
         lp = lps[0]
+        it_ok = match(f"enumerate({tp}._children or ())", lp.iter) is not None or match(f"enumerate({tp}.children)", lp.iter) is not None
         iv, cv = norm(lp.target.elts[0]), norm(lp.target.elts[1])
         calls = [c for c in ast.walk(lp) if isinstance(c, ast.Call) and norm(c.func) == "_add_child_node"]
         recs = [c for c in ast.walk(lp) if isinstance(c, ast.Call) and norm(c.func) == "_add_child_nodes"]
-        ok = len(calls) == 1 and len(recs) == 1
-        if ok:
+        if len(calls) == 1 and len(recs) == 1:
             g0 = m.func("_add_child_node")
             act = {p: ctx.env._actual_for(g0, calls[0], p) for p in ("parent_graph_node", "tree_node", "index")}
-            ok = all(v is not None for v in act.values()) and norm(act["parent_graph_node"]) == gnp and norm(act["tree_node"]) == cv and norm(act["index"]) == iv
-            tgt = [st for st in lp.body if isinstance(st, ast.Assign) and st.value is calls[0]]
-            ok = ok and len(tgt) == 1 and [norm(a) for a in recs[0].args][:3] == [gp, norm(tgt[0].targets[0]), cv]
+            ok = it_ok and all(v is not None for v in act.values()) and norm(act["parent_graph_node"]) == gnp and norm(act["tree_node"]) == cv and norm(act["index"]) == iv
+            ra = recs[0].args
+            ok = ok and len(ra) >= 3 and norm(ra[0]) == gp and norm(ra[2]) == cv and any(v_ is calls[0] for v_ in reaching_values(ctx, f, recs[0], ra[1]))
     O(f, "rdf: each child is added below this node's graph node and recursed into once", ok, "edges must follow the tree's parent-child relation")
     return obs
 
